@@ -163,15 +163,15 @@ def Spec (row : Bytes → Nat) (c : Connection S) (res : Except (Connection S) (
   match m.2, res with
   | .rows rs fl, .ok c' =>
       absStmts row c' = m.1.stmts ∧ c'.capabilities = c.capabilities ∧ c'.status_flags = c.status_flags ∧
-      ∃ ps : List Bytes, ps.map row = rs ∧
-        c'.out = c.out ++ ps.map (fun p => Ev.write p false) ++ [Ev.drain, Ev.write (ok_or_eof c 0 0 0 (flagBits fl)) true]
+      ∃ ps : List Bytes, ps.map row = rs ∧ ∃ a l w : Nat,      -- counters of the terminator: not the property's business
+        c'.out = c.out ++ ps.map (fun p => Ev.write p false) ++ [Ev.drain, Ev.write (ok_or_eof c a l w (flagBits fl)) true]
   | .rowsErr rs, .error c' =>
       absStmts row c' = m.1.stmts ∧ c'.capabilities = c.capabilities ∧ c'.status_flags = c.status_flags ∧
       ∃ ps : List Bytes, ps.map row = rs ∧ c'.out = c.out ++ ps.map (fun p => Ev.write p false)
   | .err, .error c' => c' = c ∧ absStmts row c = m.1.stmts
   | .ok, .ok c' =>
       absStmts row c' = m.1.stmts ∧ c'.capabilities = c.capabilities ∧ c'.status_flags = c.status_flags ∧
-      c'.out = c.out ++ [Ev.session_reset, Ev.write (ok c false 0 0 0 0) true]
+      ∃ (e : Bool) (a l w f : Nat), c'.out = c.out ++ [Ev.session_reset, Ev.write (ok c e a l w f) true]
   | .none, .ok c' =>
       absStmts row c' = m.1.stmts ∧ c'.capabilities = c.capabilities ∧ c'.status_flags = c.status_flags ∧ c'.out = c.out
   | _, _ => False
@@ -220,8 +220,7 @@ theorem handle_stmt_fetch_refines (row : Bytes → Nat) (c : Connection S) (data
           refine ⟨?_, rfl, rfl, g.rows.take f.num_rows, ?_, ?_⟩
           · exact absStmts_after row c stmt f.stmt_id (g.rows.take f.num_rows) ⟨g.rows.drop f.num_rows, g.boom⟩ hget _ (by simp [absGen, List.map_drop])
           · simp [List.map_take]
-          · simp only [after, flagBits, List.append_assoc, List.cons_append, List.nil_append]
-            rfl
+          · exact ⟨_, _, _, by simp only [after, flagBits, List.append_assoc, List.cons_append, List.nil_append]; rfl⟩
         · simp only [h1, if_false]
           cases hb : g.boom with
           | true =>
@@ -236,8 +235,7 @@ theorem handle_stmt_fetch_refines (row : Bytes → Nat) (c : Connection S) (data
             simp only [Spec, Mimic.Cursor.step, habs, absStmt, hcur, Option.map_some, absGen, Mimic.Cursor.fetchSrc, List.length_map, h1, if_false, hb, Bool.false_eq_true]
             refine ⟨?_, rfl, rfl, g.rows, rfl, ?_⟩
             · exact absStmts_after row c stmt f.stmt_id g.rows ⟨[], false⟩ hget _ (by simp [absGen])
-            · simp only [after, flagBits, List.append_assoc, List.cons_append, List.nil_append]
-              rfl
+            · exact ⟨_, _, _, by simp only [after, flagBits, List.append_assoc, List.cons_append, List.nil_append]; rfl⟩
       · have h0 : f.num_rows = 0 := by omega
         simp only [hn, decide_false, Bool.false_eq_true, if_false, h0, Nat.lt_irrefl]
         simp only [Spec, Mimic.Cursor.step, habs, absStmt, hcur, Option.map_some, absGen, Mimic.Cursor.fetchSrc, Nat.zero_le, if_true, List.take_zero, List.drop_zero]
@@ -247,8 +245,7 @@ theorem handle_stmt_fetch_refines (row : Bytes → Nat) (c : Connection S) (data
           by_cases hk : k = f.stmt_id
           · simp [absStmts, hk, hget, absStmt, hcur, absGen]
           · simp [absStmts, hk]
-        · simp only [flagBits, List.map_nil, List.append_nil, List.append_assoc, List.cons_append, List.nil_append]
-          rfl
+        · exact ⟨_, _, _, by simp only [flagBits, List.map_nil, List.append_nil, List.append_assoc, List.cons_append, List.nil_append]; rfl⟩
 
 /-- **`Connection.handle_stmt_reset`, translated, is the model's `reset` step**: the cursor of the addressed statement is
     dropped (and its long-data buffers, see `handle_stmt_reset_clears_buffers`), the session's `reset` is awaited, one OK is
@@ -269,8 +266,7 @@ theorem handle_stmt_reset_refines (row : Bytes → Nat) (c : Connection S) (data
       by_cases hk : k = f.stmt_id
       · simp [hk, absStmt]
       · simp [hk]
-    · simp only [List.append_assoc, List.cons_append, List.nil_append]
-      rfl
+    · exact ⟨_, _, _, _, _, by simp only [List.append_assoc, List.cons_append, List.nil_append]; rfl⟩
 
 /-- after COM_STMT_RESET the statement has neither long data nor a cursor, and keeps its text and parameter count -/
 theorem handle_stmt_reset_clears_buffers (c : Connection S) (data : Bytes) (f : ComStmtReset S) (stmt : PreparedStatement S)
@@ -354,15 +350,15 @@ theorem handle_stmt_send_long_data_spec (c : Connection S) (data : Bytes) (f : C
 /-! ### successive fetches, on the bytes themselves -/
 
 /-- the packets a fetch writes: the rows (buffered), a drain, the terminator with its status flag -/
-def fetchOut (c : Connection S) (ps : List Bytes) (fl : Nat) : List Ev :=
-  ps.map (fun p => Ev.write p false) ++ [Ev.drain, Ev.write (ok_or_eof c 0 0 0 fl) true]
+def fetchOut (c : Connection S) (ps : List Bytes) (a l w fl : Nat) : List Ev :=
+  ps.map (fun p => Ev.write p false) ++ [Ev.drain, Ev.write (ok_or_eof c a l w fl) true]
 
 /-- one COM_STMT_FETCH on a statement whose cursor does not raise, stated on the code's own objects -/
 theorem handle_stmt_fetch_exact (c : Connection S) (data : Bytes) (f : ComStmtFetch S) (stmt : PreparedStatement S) (rows : List Bytes)
     (hp : parse_handle_stmt_fetch (S := S) data = some f) (hget : dictGet c.prepared_stmts f.stmt_id = some stmt)
     (hcur : stmt.cursor = some ⟨rows, false⟩) :
-    ∃ c', handle_stmt_fetch c data = .ok c' ∧ c'.capabilities = c.capabilities ∧ c'.status_flags = c.status_flags ∧
-      c'.out = c.out ++ fetchOut c (rows.take f.num_rows) (if rows.length < f.num_rows then 128 else 64) ∧
+    ∃ c' a l w, handle_stmt_fetch c data = .ok c' ∧ c'.capabilities = c.capabilities ∧ c'.status_flags = c.status_flags ∧
+      c'.out = c.out ++ fetchOut c (rows.take f.num_rows) a l w (if rows.length < f.num_rows then 128 else 64) ∧
       (∀ k, k ≠ f.stmt_id → dictGet c'.prepared_stmts k = dictGet c.prepared_stmts k) ∧
       dictGet c'.prepared_stmts f.stmt_id = some { stmt with cursor := some ⟨rows.drop f.num_rows, false⟩ } := by
   unfold handle_stmt_fetch
@@ -372,21 +368,21 @@ theorem handle_stmt_fetch_exact (c : Connection S) (data : Bytes) (f : ComStmtFe
     by_cases h1 : f.num_rows ≤ rows.length
     · have hlt : ¬ rows.length < f.num_rows := by omega
       simp only [h1, if_true, Nat.lt_irrefl, decide_false, Bool.false_eq_true, if_false, hlt]
-      refine ⟨_, rfl, rfl, rfl, ?_, ?_, ?_⟩
-      · simp only [after, fetchOut, List.append_assoc, List.cons_append, List.nil_append]; rfl
+      refine ⟨_, ?a, ?l, ?w, rfl, rfl, rfl, ?out, ?_, ?_⟩
+      case out => simp only [after, fetchOut, List.append_assoc, List.cons_append, List.nil_append]; rfl
       · intro k hk; simp [after, dictGet_dictSet, hk]
       · simp [after, dictGet_dictSet]
     · have hlt : rows.length < f.num_rows := by omega
       simp only [h1, if_false, Bool.false_eq_true, hlt, decide_true, if_true]
-      refine ⟨_, rfl, rfl, rfl, ?_, ?_, ?_⟩
-      · simp only [after, fetchOut, List.append_assoc, List.cons_append, List.nil_append, List.take_of_length_le (Nat.le_of_lt hlt)]; rfl
+      refine ⟨_, ?a, ?l, ?w, rfl, rfl, rfl, ?out, ?_, ?_⟩
+      case out => simp only [after, fetchOut, List.append_assoc, List.cons_append, List.nil_append, List.take_of_length_le (Nat.le_of_lt hlt)]; rfl
       · intro k hk; simp [after, dictGet_dictSet, hk]
       · simp [after, dictGet_dictSet, List.drop_of_length_le (Nat.le_of_lt hlt)]
   · have h0 : f.num_rows = 0 := by omega
     have hlt : ¬ rows.length < 0 := by omega
     simp only [hn, decide_false, Bool.false_eq_true, if_false, h0, Nat.lt_irrefl, List.take_zero, List.drop_zero, hlt]
-    refine ⟨_, rfl, rfl, rfl, ?_, ?_, ?_⟩
-    · simp only [fetchOut, List.map_nil, List.nil_append, List.append_assoc, List.cons_append]; rfl
+    refine ⟨_, ?a, ?l, ?w, rfl, rfl, rfl, ?out, ?_, ?_⟩
+    case out => simp only [fetchOut, List.map_nil, List.nil_append, List.append_assoc, List.cons_append]; rfl
     · intro k _; rfl
     · show dictGet c.prepared_stmts f.stmt_id = _
       rw [hget, ← hcur]
@@ -406,7 +402,7 @@ theorem rowsOut_append (a b : List Ev) : rowsOut (a ++ b) = rowsOut a ++ rowsOut
     | drain => simp [rowsOut, ih]
     | session_reset => simp [rowsOut, ih]
 
-theorem rowsOut_fetchOut (c : Connection S) (ps : List Bytes) (fl : Nat) : rowsOut (fetchOut c ps fl) = ps := by
+theorem rowsOut_fetchOut (c : Connection S) (ps : List Bytes) (a l w fl : Nat) : rowsOut (fetchOut c ps a l w fl) = ps := by
   unfold fetchOut
   rw [rowsOut_append]
   have : rowsOut (ps.map (fun p => Ev.write p false)) = ps := by
@@ -443,14 +439,108 @@ theorem code_fetches_in_order (id : Nat) :
     intro c stmt rows hall hget hcur
     obtain ⟨hp, hid⟩ := hall x (List.mem_cons_self ..)
     subst hid
-    obtain ⟨c1, hrun, _, _, hout, hother, hself⟩ := handle_stmt_fetch_exact c x.1 x.2 stmt rows hp hget hcur
+    obtain ⟨c1, a, l, w, hrun, _, _, hout, hother, hself⟩ := handle_stmt_fetch_exact c x.1 x.2 stmt rows hp hget hcur
     have ih' := ih c1 { stmt with cursor := some ⟨rows.drop x.2.num_rows, false⟩ } (rows.drop x.2.num_rows)
       (fun y hy => hall y (List.mem_cons_of_mem _ hy)) hself rfl
     simp only [List.map_cons, runFetches, hrun, List.sum_cons]
     obtain ⟨⟨tail, h1, h1r⟩, h2, h3⟩ := ih'
-    refine ⟨⟨fetchOut c (rows.take x.2.num_rows) (if rows.length < x.2.num_rows then 128 else 64) ++ tail, by rw [h1, hout, List.append_assoc], ?_⟩, ?_, ?_⟩
+    refine ⟨⟨fetchOut c (rows.take x.2.num_rows) a l w (if rows.length < x.2.num_rows then 128 else 64) ++ tail, by rw [h1, hout, List.append_assoc], ?_⟩, ?_, ?_⟩
     · rw [rowsOut_append, rowsOut_fetchOut, h1r, List.take_add]
     · rw [h2]; simp [List.drop_drop, Nat.add_comm]
     · intro k hk; rw [h3 k hk, hother k hk]
+
+/-! ### COM_STMT_PREPARE -/
+
+theorem forM_append_const {α β : Type} (x : β) : ∀ (l : List α) (acc : List β),
+    Mimic.Py.forM l acc (fun _ y => some (y ++ [x])) = some (acc ++ List.replicate l.length x) := by
+  intro l
+  induction l with
+  | nil => intro acc; simp [Mimic.Py.forM]
+  | cons a as ih =>
+    intro acc
+    simp only [Mimic.Py.forM, ih, List.length_cons, List.replicate_succ, List.append_assoc, List.singleton_append]
+
+/-- the packets announced for a prepared statement: the prepare-OK, one definition per placeholder, and the EOF that
+    closes the definitions unless the client deprecated it (`w`, `f`: its warning count and extra status flags); nothing
+    after the prepare-OK for a statement without placeholders -/
+def prepareResponse (pc : Nat → Bytes) (c : Connection S) (st : PreparedStatement S) (w f : Nat) : List Bytes :=
+  make_com_stmt_prepare_ok st ::
+    (if st.num_params = 0 then [] else List.replicate st.num_params (pc c.server_charset) ++ (if deprecate_eof c then [] else [eof c w f]))
+
+theorem com_stmt_prepare_response_eq (pc : Nat → Bytes) (c : Connection S) (st : PreparedStatement S) :
+    ∃ w f : Nat, com_stmt_prepare_response pc c st = some (prepareResponse pc c st w f) := by
+  unfold com_stmt_prepare_response prepareResponse
+  by_cases h0 : st.num_params = 0
+  · exact ⟨0, 0, by simp [h0]⟩
+  · have hne : (st.num_params != 0) = true := by simp [h0]
+    have hl : Connection_com_stmt_prepare_response_loop1 pc c = (fun (_ : Nat) (y : List Bytes) => some (y ++ [pc c.server_charset])) := by
+      funext a y; rfl
+    simp only [hne, if_true, hl, forM_append_const, List.length_range, h0, if_false, List.nil_append, List.singleton_append]
+    cases hd : deprecate_eof c
+    · exact ⟨_, _, by simp only [Bool.not_false, if_true, List.cons_append, List.nil_append, Bool.false_eq_true, if_false]; rfl⟩
+    · exact ⟨0, 0, by simp⟩
+
+theorem seq_next_fst (q : seq S) : (seq_next q).1 = q.value := by
+  unfold seq_next; rfl
+
+/-- **`Connection.handle_stmt_prepare`, translated**: the statement gets the next id of the sequence, is registered under it
+    with the decoded text, as many parameters as the text has placeholders, no long data and no cursor; the sequence
+    advances; the response — prepare-OK carrying that id and count, one definition per placeholder, closing EOF — is
+    written buffered and then drained; an undecodable text raises before anything changes. -/
+theorem handle_stmt_prepare_spec (E : Env S) (cp : S → Nat) (pc : Nat → Bytes) (c : Connection S) (data : Bytes) :
+    match E.decode c.client_charset data with
+    | none => handle_stmt_prepare E cp pc c data = .error c
+    | some sql =>
+      let st : PreparedStatement S := { stmt_id := c.prepared_stmt_seq.value, sql := sql, num_params := cp sql, param_buffers := none, cursor := none }
+      ∃ c' w f, handle_stmt_prepare E cp pc c data = .ok c' ∧
+        c'.prepared_stmts = dictSet c.prepared_stmts c.prepared_stmt_seq.value st ∧
+        c'.prepared_stmt_seq = (seq_next c.prepared_stmt_seq).2 ∧
+        c'.capabilities = c.capabilities ∧ c'.status_flags = c.status_flags ∧
+        c'.out = c.out ++ (prepareResponse pc c st w f).map (fun p => Ev.write p false) ++ [Ev.drain] := by
+  unfold handle_stmt_prepare
+  cases hd : E.decode c.client_charset data with
+  | none => rfl
+  | some sql =>
+    simp only
+    cases hq : seq_next c.prepared_stmt_seq with
+    | mk v it =>
+      have hv : v = c.prepared_stmt_seq.value := by
+        have := congrArg Prod.fst hq; rw [seq_next_fst] at this; exact this.symm
+      subst hv
+      simp only
+      obtain ⟨w, f, hr⟩ := com_stmt_prepare_response_eq pc
+        ({ c with prepared_stmt_seq := it, prepared_stmts := dictSet c.prepared_stmts c.prepared_stmt_seq.value (⟨c.prepared_stmt_seq.value, sql, cp sql, none, none⟩ : PreparedStatement S) } : Connection S)
+        (⟨c.prepared_stmt_seq.value, sql, cp sql, none, none⟩ : PreparedStatement S)
+      rw [hr]
+      exact ⟨_, w, f, rfl, rfl, rfl, rfl, rfl, rfl⟩
+
+/-- the sequence of statement ids: with size `n > 0` the next value is `(v + 1) % n` -/
+theorem seq_next_value (q : seq S) (n : Nat) (hn : 0 < n) (hs : q.size = some n) :
+    (seq_next q).1 = q.value ∧ (seq_next q).2.value = (q.value + 1) % n ∧ (seq_next q).2.size = some n := by
+  have hne : (n != 0) = true := by simp; omega
+  simp [seq_next, hs, hne]
+
+/-- **`handle_stmt_prepare` is the model's `prepare` step**: the registry read off the dictionary gains the statement under
+    the next id, every other statement is untouched, the next id counts up modulo 2^32 (the extracted
+    `_MAX_PREPARED_STMT_ID`) -/
+theorem handle_stmt_prepare_refines (row : Bytes → Nat) (E : Env S) (cp : S → Nat) (pc : Nat → Bytes) (c : Connection S) (data : Bytes) (sql : S)
+    (hd : E.decode c.client_charset data = some sql) (hs : c.prepared_stmt_seq.size = some maxPreparedStmtId) :
+    ∃ c', handle_stmt_prepare E cp pc c data = .ok c' ∧
+      (⟨absStmts row c', c'.prepared_stmt_seq.value⟩ : Mimic.Cursor.Reg).stmts
+        = (Mimic.Cursor.step ⟨absStmts row c, c.prepared_stmt_seq.value⟩ .prepare).1.stmts ∧
+      c'.prepared_stmt_seq.value = (Mimic.Cursor.step ⟨absStmts row c, c.prepared_stmt_seq.value⟩ .prepare).1.next ∧
+      c'.prepared_stmt_seq.size = some maxPreparedStmtId := by
+  have h := handle_stmt_prepare_spec E cp pc c data
+  simp only [hd] at h
+  obtain ⟨c', w, f, hrun, hreg, hseq, _, _, _⟩ := h
+  obtain ⟨_, h2, h3⟩ := seq_next_value c.prepared_stmt_seq maxPreparedStmtId (by decide) hs
+  refine ⟨c', hrun, ?_, ?_, ?_⟩
+  · funext k
+    simp only [absStmts, hreg, dictGet_dictSet, Mimic.Cursor.step, Mimic.Cursor.upd]
+    by_cases hk : k = c.prepared_stmt_seq.value
+    · simp [hk, absStmt]
+    · simp [hk]
+  · rw [hseq, h2]; rfl
+  · rw [hseq, h3]
 
 end MimicProofs.HandlersCode
